@@ -40,6 +40,11 @@ package channels
 //@ pred tsUnchanged(s TimedSet) bool
 //@   is forall k string :: {k in s} {s[k]} ((k in s) <==> old(k in s)) && s[k] == old(s[k])
 
+// every TimedSet that existed on entry is exactly as it was (for functions that only write into sets they create:
+// their modifies clause has to name the whole component, `elems(channels.TimedSet)`, and this gives the frame back)
+//@ pred tsFrame() bool
+//@   is forall m TimedSet, k string :: {k in m} {m[k]} old(allocated(m)) ==> ((k in m) <==> old(k in m)) && m[k] == old(m[k])
+
 // AtSequence: a fresh set with exactly the members of the Set, all stamped with the sequence.
 //@ func AtSequence
 //@   safety on
